@@ -52,7 +52,7 @@ pub fn fuzz_plan(prop: &str) -> Vec<(&'static str, usize, u32)> {
         "C03" => vec![("conformant", 1500, 2)],
         "C04" => vec![("render-read", 2500, 8), ("negative", 1200, 4)],
         "C05" => vec![("write-read", 2500, 8)],
-        "C06" => vec![("import", 900, 4)],
+        "C06" => vec![("import", 900, 48)],
         "C07" => vec![("roundtrip", 900, 2)],
         "C08" => vec![("compile", 700, 2), ("compile-asymmetric-flip", 700, 2)],
         "C09" => vec![("programs", 400, 2), ("cyclic", 400, 2), ("arrays", 200, 1)],
